@@ -195,6 +195,8 @@ class SimPool:
                 except HarnessError:
                     raise
                 except Exception as e:  # what the real worker does: ship the exception back
+                    if getattr(e, "verif_passthrough", False):
+                        raise
                     value, ok = e, False
                 cost = wd.path_cost * max(1, n_items) * (slow_factor if w == slow else 1)
                 wd.sim_seconds += cost
